@@ -379,9 +379,8 @@ impl RuntimeData {
             debug_assert!(!matches!(obj.marker, GcMarker::Black));
             match &mut obj.body {
                 CaoLangObjectBody::Table(obj) => {
-                    for (key, value) in obj.iter() {
+                    for value in obj.stored_values() {
                         unsafe {
-                            checked_enqueue_value!(key);
                             checked_enqueue_value!(value);
                         }
                     }
